@@ -7,6 +7,6 @@ git checkout -q -- .
 for e in "$@"; do sed -i "$e" "$file"; done
 if git diff --quiet; then echo "MUTATION DID NOT CHANGE ANYTHING"; exit 9; fi
 git diff --stat | tail -1
-(cd /tmp/mt && go build ./$(dirname $file)/ 2>&1 | head -5)
+(cd /tmp/mt && GOFLAGS= GOPROXY=off GOSUMDB=off go build ./$(dirname $file)/ 2>&1 | head -5)
 VERIF_REPO=/tmp/mt VERIF_DIR=/tmp/mt-verif /verif/bin/osmolint -property $prop 2>&1 | egrep -v '^(NOTE|KNOWN)' | cut -c1-400 | head -${MUT_LINES:-12}
 git checkout -q -- .
